@@ -42,4 +42,17 @@ not parse back -/
 def lostOf {Purl : Type} (ops : PurlOps Purl) (exported : Pkg Purl → Bool) (inv : List (Pkg Purl)) : Nat :=
   ((inv.filter exported).filter fun p => match p.purl with | some u => (normP ops u).isNone | none => false).length
 
+/-- what two purl names must share to denote the same package under the per-type normalisations of packageurl-go
+(lower-casing; `_` and `.` folded to `-` for pypi) -/
+def canonName (s : String) : String := s.map fun c => if c = '_' || c = '.' then '-' else c.toLower
+
+/-- What `norm` (= `purl.FromString ∘ String`) is ALLOWED to do — without this a "parser" that returns one fixed purl for
+every input would satisfy `ParsesBack` (audit finding). It is idempotent (so it is the identity on purls that are already
+normal), it never touches the version, and it changes the name at most by the case / separator folding of `canonName`.
+The real library is checked against these laws on every generated purl by c15gen (reply field `laws=`). -/
+structure NormLaws {Purl : Type} (ops : PurlOps Purl) (norm : Purl → Purl) : Prop where
+  idem : ∀ u, norm (norm u) = norm u
+  version : ∀ u, ops.version (norm u) = ops.version u
+  name : ∀ u, canonName (ops.name (norm u)) = canonName (ops.name u)
+
 end Scalibr.Sbom
